@@ -379,6 +379,34 @@ fn pipeline_alias_box(a: &mut Acc) {
     cleanup("c20q");
 }
 
+/// file names with a dot in them (`"st.1"`, `"lex.v2"`, `$al.x`): the extension may be left out, the rest of the name is the name. Decoy files
+/// whose names are what remains when the last dotted part is cut off (`st.rsca`, `lex.wsca`, `al.alias`) lie next to them
+fn dotted_names_box(a: &mut Acc) {
+    let mut n = 0;
+    for (f1, f2) in [(0usize, 1usize), (1, 0), (2, 0), (0, 2)] { for with_alias in [false, true] { for spelled_out in [false, true] {
+        n += 1;
+        let sb = Sandbox::new("c20d", n);
+        sb.write("st.1.rsca", RULE_FILES[f1].1); sb.write("st.2.rsca", RULE_FILES[f2].1); sb.write("st.rsca", "@ decoy\n    a > o\n");
+        sb.write("lex.v2.wsca", WORD_FILES[0].1); sb.write("lex.wsca", "decoy");
+        sb.write("al.x.alias", ALIAS); sb.write("al.alias", "@into\n    p > x\n");
+        let ext = |e: &str| if spelled_out { format!(".{}", e) } else { String::new() };
+        let cfg = format!("@alpha{} [\"lex.v2{}\"]:\n    \"st.1{}\",\n    \"st.2{}\"\n", if with_alias { " $al.x" } else { "" }, ext("wsca"), ext("rsca"), ext("rsca"));
+        sb.write("config.asca", &cfg);
+        let o = run_cli(&sb.dir, &["seq", ".", "-o", "-y"]); a.procs += 1;
+        let groups: Vec<RuleGroup> = [f1, f2].iter().flat_map(|f| formats::parse_rsca(RULE_FILES[*f].1)).collect();
+        let words = formats::parse_wsca(WORD_FILES[0].1);
+        let (into, from) = if with_alias { formats::parse_alias(ALIAS) } else { (vec![], vec![]) };
+        let Out::Ok(Ok(one)) = guarded(5_000_000, || asca::run(&groups, &words, &into, &from)) else { continue };
+        let want: Vec<String> = one.into_iter().filter(|x| !x.is_empty()).collect();
+        a.evals += 1;
+        match out_file(&sb, "alpha") {
+            Some((_, g)) if nonblank(&g) == want => a.ok += 1,
+            got => a.viols.push(Viol { key: format!("dotted-names|{}", cfg.split_whitespace().collect::<Vec<_>>().join(" ")), desc: format!("tag `alpha` names files with a dot in their names: `asca seq` wrote {:?}, its rule files applied to its word file give {:?} (exit {:?}, stdout {}, stderr {}); config: {}", got, want, o.code, o.stdout.replace('\n', " | "), o.stderr.replace('\n', " | "), cfg), case: json!({"config": cfg, "alias_stages": true}) }),
+        }
+    } } }
+    cleanup("c20d");
+}
+
 /// chains root <- mid <- leaf in which root and mid list TWO rule files each (every ordered pair of the three files, no filter) and the leaf one;
 /// declared forwards and backwards. These are the shapes in which the order of an ancestor's own entries matters to the rule history
 fn chain_configs() -> Vec<(Vec<Tag>, Vec<usize>)> {
@@ -468,6 +496,11 @@ pub fn run() -> i32 {
     r.boxes.push(json!({"box": "one tag, romanisation file with both sections, two or three rule files in every order: seq == one library run == conv tag + run -j", "comparisons": tal.evals, "cli_processes": tal.procs, "held": tal.ok}));
     r.guard(tal.ok >= 80, "alias-stage box: at least 40 comparisons held");
     t.merge(tal);
+    let mut tdn = Acc::default();
+    dotted_names_box(&mut tdn);
+    r.boxes.push(json!({"box": "rule, word and alias files with a dot in their names, extension left out or spelled out, next to decoys named by the cut-off stem", "comparisons": tdn.evals, "cli_processes": tdn.procs, "held": tdn.ok}));
+    r.guard(tdn.evals >= 16, "dotted names box ran");
+    t.merge(tdn);
     let mut tpa = Acc::default();
     pipeline_alias_box(&mut tpa);
     r.boxes.push(json!({"box": "three-tag pipelines whose tags name different romanisation files (root: @into only, daughters: @from only): seq == one library run == conv tag -r + run -j, for every tag", "comparisons": tpa.evals, "cli_processes": tpa.procs, "held": tpa.ok}));
